@@ -10,6 +10,8 @@
             | cd:<pfx>:<L>:<f>       that request released
             | r:<pfx>:<L>:<f> | x:<pfx>:<L>:<f> | l:<pfx>     Renew | Resign | Leader
             | t:<δ>
+            | j:<key>:<val>          (only at the head of a trace) a foreign client put key = val without a lease: the key space
+                                     the sessions find is not empty (Props/C15EtcdJunk.lean: any well-formed key space)
       → one line per event:
         #<idx> <evno> <kind> <result…> R=<store revision> S=<key=val@create/lease,… by create revision>
               E=<L/pfx:key:rev:pend,… every election object of the trace> H=<pfx/L,… holders>
@@ -107,13 +109,31 @@ def runTrace (idx : String) (idOf : Nat → Bytes) (els : List (Nat × Bytes)) :
     let line := s!"#{idx} {n} {kind} {outStr r.2} R={r.1.st.rev} S={kvsStr r.1.st.kvs} E={elsStr r.1 els} H={holdersStr r.1 els}"
     runTrace idx idOf els r.1 (n + 1) rest (line :: acc)
 
+def parseJunk (s : String) : Option (Bytes × Bytes) :=
+  match s.splitOn ":" with
+  | ["j", k, v] => do let k ← Hex.decode k; let v ← Hex.decode v; pure (k, v)
+  | _ => none
+
+/-- the junk keys at the head of a trace: one put = one revision, no lease -/
+def runJunk (idx : String) (els : List (Nat × Bytes)) : Sys → Nat → List (Bytes × Bytes) → List String → Sys × Nat × List String
+  | s, n, [], acc => (s, n, acc)
+  | s, n, (k, v) :: rest, acc =>
+    let kv : KV := { key := k, val := v, create := s.st.rev + 1, lease := 0 }
+    let st' : Store := { s.st with kvs := s.st.kvs ++ [kv], rev := s.st.rev + 1 }
+    let s' : Sys := { s with st := st' }
+    let line := s!"#{idx} {n} j - R={s'.st.rev} S={kvsStr s'.st.kvs} E={elsStr s' els} H={holdersStr s' els}"
+    runJunk idx els s' (n + 1) rest (line :: acc)
+
 def handle : List String → Option (List String)
   | "etrace" :: idx :: rev0 :: now0 :: ids :: evs =>
-    match rev0.toNat?, now0.toNat?, parseIds ids, evs.mapM parseEv with
-    | some rev0, some now0, some idL, some evL =>
+    let junkToks := evs.takeWhile (fun t => t.startsWith "j:")
+    let evToks := evs.dropWhile (fun t => t.startsWith "j:")
+    match rev0.toNat?, now0.toNat?, parseIds ids, junkToks.mapM parseJunk, evToks.mapM parseEv with
+    | some rev0, some now0, some idL, some junk, some evL =>
       let els := dedup (evL.filterMap (·.2.2))
-      some (runTrace idx (idFn idL) els (Sys.init rev0 now0) 0 evL [])
-    | _, _, _, _ => some [s!"#{idx} bad-op"]
+      let (s0, n0, acc) := runJunk idx els (Sys.init rev0 now0) 0 junk []
+      some (runTrace idx (idFn idL) els s0 n0 evL acc)
+    | _, _, _, _, _ => some [s!"#{idx} bad-op"]
   | ["erequests", idx] =>
     -- the requests the model's calls consist of (Gen requests: one Txn, the loser's Delete, one Get)
     some [s!"#{idx} campaign_won=Txn campaign_lost=Txn+DeleteRange renew=Range leader=Range resign=Txn"]
